@@ -123,6 +123,13 @@ func (self *Node) Exists() bool {
 	return t != V_ERROR && t != _V_NONE
 }
 
+// unset reports whether the slot is one left behind by Unset/UnsetByIndex (or is missing).
+// An error node is not such a slot: it is still counted by len() and must surface to
+// whoever reads through it, instead of being skipped like a removed child.
+func (self *Node) unset() bool {
+	return self == nil || self.loadt() == _V_NONE
+}
+
 // Valid reports if self is NOT V_ERROR or nil
 func (self *Node) Valid() bool {
 	if self == nil {
@@ -927,7 +934,7 @@ func (self *Node) Pop() error {
 		}
 		// remove tail unset nodes
 		for i := s.Len() - 1; i >= 0; i-- {
-			if s.At(i).Exists() {
+			if !s.At(i).unset() {
 				s.Pop()
 				self.l--
 				break
@@ -942,7 +949,7 @@ func (self *Node) Pop() error {
 		}
 		// remove tail unset nodes
 		for i := s.Len() - 1; i >= 0; i-- {
-			if p := s.At(i); p != nil && p.Value.Exists() {
+			if p := s.At(i); p != nil && !p.Value.unset() {
 				s.Pop()
 				self.l--
 				break
@@ -982,7 +989,7 @@ func (self *Node) Move(dst, src int) error {
 		di, si := dst, src
 		// find real pos of src and dst
 		for i := 0; i < l; i++ {
-			if s.At(i).Exists() {
+			if !s.At(i).unset() {
 				di--
 				si--
 			}
@@ -1561,7 +1568,7 @@ func (self *Node) nodeAt(i int) *Node {
 			// some nodes got unset, iterate to skip them
 			for j := 0; j < l; j++ {
 				v := p.At(j)
-				if v.Exists() {
+				if !v.unset() {
 					i--
 				}
 				if i < 0 {
@@ -1589,7 +1596,7 @@ func (self *Node) pairAt(i int) *Pair {
 			// some nodes got unset, iterate to skip them
 			for j := 0; j < l; j++ {
 				v := p.At(j)
-				if v != nil && v.Value.Exists() {
+				if v != nil && !v.Value.unset() {
 					i--
 				}
 				if i < 0 {
